@@ -344,7 +344,15 @@ def drive(lines, timeout=3000):
     if not lines:
         return []
     data = ("\n".join(lines) + "\n").encode()
-    p = subprocess.run([DRIVER], input=data, stdout=subprocess.PIPE, stderr=subprocess.PIPE, timeout=timeout)
+    for attempt in range(6):
+        try:
+            p = subprocess.run([DRIVER], input=data, stdout=subprocess.PIPE, stderr=subprocess.PIPE, timeout=timeout)
+            break
+        except (FileNotFoundError, PermissionError, OSError) as exc:
+            # another check is just re-linking the driver (the build itself is serialised, its use is not)
+            if attempt == 5 or not isinstance(exc, (FileNotFoundError, PermissionError)) and getattr(exc, "errno", None) != 26:
+                raise
+            time.sleep(2)
     out = p.stdout.decode().split("\n")
     if out and out[-1] == "":
         out.pop()
